@@ -192,7 +192,7 @@ pub fn pow_of(kind: PowKind) -> Pow {
     }
 }
 
-fn mine(kind: PowKind, b: BlockView, salt: u64) -> BlockView {
+pub fn mine_block(kind: PowKind, b: BlockView, salt: u64) -> BlockView {
     match kind {
         PowKind::Dummy => {
             // nonce still participates in the hash: make branches differ
@@ -215,17 +215,19 @@ fn mine(kind: PowKind, b: BlockView, salt: u64) -> BlockView {
 }
 
 /// A header with a nonce that does NOT satisfy PoW (only meaningful under Eaglesong).
-pub fn unmine(b: &BlockView) -> BlockView {
+/// None when no such nonce is found quickly (difficulty 1: every nonce is a solution).
+pub fn unmine(b: &BlockView) -> Option<BlockView> {
     let pow = Pow::EaglesongBlake2b;
     let eng = pow.engine();
     let mut n: u128 = 1 << 100;
-    loop {
+    for _ in 0..256 {
         let h = b.header().as_advanced_builder().nonce(n.pack()).build();
         if !eng.verify(&h.data()) {
-            return b.as_advanced_builder().header(h).build();
+            return Some(b.as_advanced_builder().header(h).build());
         }
         n += 1;
     }
+    None
 }
 
 impl Chain {
@@ -476,7 +478,7 @@ impl Chain {
             bb = bb.extension(Some(ext));
             hb = hb.parent_hash(parent.hash());
         }
-        let b = mine(self.params.pow, bb.header(hb.build()).build(), salt);
+        let b = mine_block(self.params.pow, bb.header(hb.build()).build(), salt);
         self.append_block(b);
     }
 
